@@ -25,17 +25,18 @@ def expected_listing(doc):
             _, li, col = item
             c = doc.lines[li].cells[col]
             if c.kind == 'bar':
-                _, acc = GM.bar_expected(c.obj)
+                _, acc = GM.bar_encoding(c.obj)
                 out.append((acc, c.kind, li, col))
             else:
                 out.append(({c.text}, c.kind, li, col))
     return out
 
 
-def one(ctx: Ctx, cs, damage=False):
+def one(ctx: Ctx, cs, damage=False, pname=None, over=None):
     import kernpy as kp
     TC = kp.TokenCategory
-    doc, pname = make_doc(cs, None, p_gcomment=0.12, p_pre_gcomment=0.5, p_post_gcomment=0.5)
+    arg_pname = pname
+    doc, pname = make_doc(cs, pname, **dict(dict(p_gcomment=0.12, p_pre_gcomment=0.5, p_post_gcomment=0.5), **(over or {})))
     n_damaged = 0
     if damage:
         # documents with malformed **kern cells are documents too: the listing holds an error token with the raw text
@@ -56,6 +57,9 @@ def one(ctx: Ctx, cs, damage=False):
     x = doc.text(0)
     ctx.ev()
     ctx.mon('documents')
+    from ..model import measures as MM
+    n_meas = len(MM.measure_starts(doc))
+    ctx.mon('documents_without_a_measure' if n_meas == 0 else 'documents_with_one_measure' if n_meas == 1 else 'documents_with_measures')
     d, e, exc = kpx.loads(x)
     if exc is not None or (e and not damage) or (damage and len(e) != n_damaged):
         ctx.mon('precondition_failed')
@@ -63,7 +67,7 @@ def one(ctx: Ctx, cs, damage=False):
     if damage:
         ctx.cls('document_with_error_tokens')
     ctx.cls(*sorted(doc.tags))
-    case = {'case_seed': cs, 'text': x, 'damage': damage}
+    case = {'case_seed': cs, 'text': x, 'damage': damage, 'pname': arg_pname, 'over': over}
     exp = expected_listing(doc)
     try:
         listing = d.get_all_tokens()
@@ -188,6 +192,12 @@ def run(ctx: Ctx):
     n = 170 if ctx.tier == 'quick' else 1000
     for k, cs in enumerate(cases(ctx, 'c17', n)):
         one(ctx, cs, damage=(k % 5 == 4))
+    # boundary documents: header + terminator, interpretations only, a single line (no measure at all / exactly one)
+    for k, cs in enumerate(cases(ctx, 'c17-tiny', n // 4)):
+        one(ctx, cs, pname='tiny', over=[{}, {'types': ('**kern',), 'max_spines': 1}, {'types': ('**kern',), 'p_sig': 0.9},
+                                         {'p_tandem': 0.6}][k % 4])
+    if ctx.monitor_events.get('documents_without_a_measure', 0) < 5 and ctx.shard is None:
+        ctx.inconc('fewer than 5 documents without a measure in the workload')
     if ctx.monitor_events.get('monophonic=True', 0) == 0 and ctx.shard is None:
         ctx.inconc('no monophonic document in the workload')
     ctx.floors = {'tokens': ('listing_tokens', 5000), 'filters': ('filtered_listings', 3000)}
@@ -195,5 +205,5 @@ def run(ctx: Ctx):
 
 def replay(ctx, w):
     case = w.get('case', w)
-    one(ctx, case['case_seed'], damage=case.get('damage', False))
+    one(ctx, case['case_seed'], damage=case.get('damage', False), pname=case.get('pname'), over=case.get('over'))
     print(case.get('text', ''))
